@@ -222,12 +222,37 @@ def concurrent_stage(ctx):
         random.Random(t).shuffle(order)
         for k in order:
             results[(t, k)] = one(k)
+    # ... and the short streams once more with every thread giving way after each line it executes inside oslo_utils
+    # (lib/vf/purity.py): line-level interleavings whatever the load of the machine
+    from vf import purity
+    small = [k for k in range(len(cases)) if len(cases[k][1]) <= 20000][:16]
+
+    def yielding_worker(t):
+        order = list(small)
+        random.Random(100 + t).shuffle(order)
+        sys.settrace(purity._yield_in_library)
+        try:
+            for k in order:
+                results[(10 + t, k)] = repr([ri.wrapper_outcome(cases[k][1], 4096)[0]])
+        finally:
+            sys.settrace(None)
+    alone_small = {k: repr([ri.wrapper_outcome(cases[k][1], 4096)[0]]) for k in small}
     try:
         ths = [threading.Thread(target=worker, args=(t,)) for t in range(4)]
         [t.start() for t in ths]
         [t.join() for t in ths]
+        ths = [threading.Thread(target=yielding_worker, args=(t,)) for t in range(4)]
+        [t.start() for t in ths]
+        [t.join() for t in ths]
     finally:
         sys.setswitchinterval(old_si)
+    for (t, k), got in sorted(results.items()):
+        if t >= 10 and got != alone_small[k]:
+            ctx.violation({'kind': 'conclusion-depends-on-concurrent-inspections', 'line_level': True},
+                          {'case': cases[k][0], 'size': len(cases[k][1]), 'alone': alone_small[k][:1500], 'with_three_other_threads': got[:1500]},
+                          'InspectWrapper on %s (%d bytes) concludes %s alone and %s while three other threads inspect other streams '
+                          '(threads giving way after every line)' % (cases[k][0], len(cases[k][1]), alone_small[k][:300], got[:300]))
+    results = {key: v for key, v in results.items() if key[0] < 10}
     bad = 0
     for (t, k), got in sorted(results.items()):
         if got != alone[k]:
@@ -239,4 +264,4 @@ def concurrent_stage(ctx):
     for p in paths:
         os.unlink(p)
     ctx.cov['evaluations'] += 6 * len(cases)
-    ctx.stage('concurrent-inspections', streams=len(cases), threads=4, differing=bad)
+    ctx.stage('concurrent-inspections', streams=len(cases), threads=4, differing=bad, line_level_streams=len(small))
